@@ -2,7 +2,7 @@
    Bzip2.SpecR.bzip2_prog is a Gallina port of libbzip2's decoder; the
    correspondence check ties bzip2.Reader to it and libbzip2 (cgo) validates
    both on every run. *)
-From V Require Import Base.Prelude Base.Prog Bzip2.Common Bzip2.SpecR Bzip2.SpecW Bzip2.Thms Life.ReadLoop.
+From V Require Import Base.Prelude Base.Prog Bzip2.Common Bzip2.SpecR Bzip2.SpecW Bzip2.Thms Life.ReadLoop Bzip2.Safe.
 
 (* the Read wrapper over the bzip2 decoder program: for every input, every
    schedule of Read sizes, the delivered bytes are a prefix of the one-shot
@@ -34,3 +34,13 @@ Theorem bzip2_cut_witness :
   bz_err (bzip2_decode (firstn 20 (bzip2_encode 1 [65;66]))) = Some EUEOF.
 Proof. exact bz_cut_is_ueof. Qed.
 Print Assumptions bzip2_cut_witness.
+
+(* TOTALITY of the bzip2 decoder model (libbzip2 port): on every input success,
+   UnexpectedEOF, Corrupted or Deprecated (bzip1 header, block randomisation) *)
+Theorem bzip2_decoder_total : forall input,
+  match bz_err (bzip2_decode input) with
+  | None => True
+  | Some e => e = EUEOF \/ e = ECorrupted \/ e = EDeprecated
+  end.
+Proof. exact bzip2_decode_total. Qed.
+Print Assumptions bzip2_decoder_total.
